@@ -42,12 +42,19 @@ pub fn strip_derives(attrs: &mut Vec<syn::Attribute>, names: &[&str]) {
 }
 pub fn sig_rules(sig: &mut syn::Signature, rules: &mut Rules) {
     struct T<'a> { rules: &'a mut Rules }
-    impl<'a> VisitMut for T<'a> { fn visit_type_mut(&mut self, t: &mut syn::Type) { visit_mut::visit_type_mut(self, t); refcell_type(t, self.rules); } }
+    impl<'a> VisitMut for T<'a> { fn visit_type_mut(&mut self, t: &mut syn::Type) { refcell_type(t, self.rules); visit_mut::visit_type_mut(self, t); refcell_type(t, self.rules); } }
     T { rules }.visit_signature_mut(sig);
 }
 fn refcell_type(t: &mut syn::Type, rules: &mut Rules) {
-    if let syn::Type::Path(p) = t { if let Some(seg) = p.path.segments.last() { if seg.ident == "RefCell" {
-        if let syn::PathArguments::AngleBracketed(ab) = &seg.arguments { if let Some(syn::GenericArgument::Type(inner)) = ab.args.first() { let inner = inner.clone(); *t = inner; *rules.dropped.entry("R:type".into()).or_default() += 1; } } } } }
+    // RefCell<T> -> T;  RwLock<T> -> T and Arc<RwLock<T>> -> T (the lock and the sharing are dropped: single-threaded, see DESIGN A.15)
+    fn inner_of(t: &syn::Type, name: &str) -> Option<syn::Type> {
+        if let syn::Type::Path(p) = t { if let Some(seg) = p.path.segments.last() { if seg.ident == name {
+            if let syn::PathArguments::AngleBracketed(ab) = &seg.arguments { if let Some(syn::GenericArgument::Type(inner)) = ab.args.first() { return Some(inner.clone()); } } } } }
+        None
+    }
+    if let Some(i) = inner_of(t, "RefCell") { *t = i; *rules.dropped.entry("R:type".into()).or_default() += 1; return; }
+    if let Some(i) = inner_of(t, "RwLock") { *t = i; *rules.dropped.entry("R:type-rwlock".into()).or_default() += 1; return; }
+    if let Some(a) = inner_of(t, "Arc") { if let Some(i) = inner_of(&a, "RwLock") { *t = i; *rules.dropped.entry("R:type-arc-rwlock".into()).or_default() += 1; } }
 }
 
 pub struct BodyRules<'a> { pub rules: &'a mut Rules, pub unit: &'a Unit, pub features: &'a [String], pub tyname: Option<String>, pub fnpath: String }
@@ -100,6 +107,11 @@ impl<'a> VisitMut for BodyRules<'a> {
                 *self.rules.dropped.entry("R:borrow".into()).or_default() += 1;
                 repl = Some((*m.receiver).clone());
             }
+            // R (locks): `cell.read().expect(MSG)` / `cell.write().expect(MSG)` on former RwLock cells (poisoning is not modelled)
+            if name == "expect" && m.args.len() == 1 { if let Expr::MethodCall(l) = &*m.receiver { if (l.method == "read" || l.method == "write") && l.args.is_empty() && self.is_cell(&l.receiver) {
+                *self.rules.dropped.entry("R:lock".into()).or_default() += 1;
+                repl = Some((*l.receiver).clone());
+            } } }
             // rule G: ghost token argument on channel operations
             for (feat, meth, extra) in &self.unit.ghost_args {
                 if (feat == "-" || self.features.contains(feat)) && name == *meth && (m.args.len() <= 1 || !matches!(name.as_str(), "send" | "try_send" | "try_recv")) {
@@ -187,6 +199,7 @@ impl<'a> VisitMut for BodyRules<'a> {
         }
     }
     fn visit_type_mut(&mut self, t: &mut syn::Type) {
+        refcell_type(t, self.rules);
         visit_mut::visit_type_mut(self, t);
         refcell_type(t, self.rules);
     }
